@@ -512,14 +512,20 @@ pub struct KnownFinding {
     pub id: String,
     /// `open` (recorded, not repaired) or `fixed` (repaired by a `fix:` commit; suppresses nothing)
     pub status: String,
-    /// exact failure signature produced by the check
-    pub signature: String,
+    /// exact failure signatures (entry point + backend + input class) this finding produces
+    pub signatures: Vec<String>,
     pub what: String,
     #[serde(default)]
     pub commit: Option<String>,
-    /// replay file (relative to /verif) that reproduces it
+    /// replay files (relative to /verif) that reproduce it
     #[serde(default)]
-    pub regress: Option<String>,
+    pub regress: Vec<String>,
+}
+
+impl KnownFinding {
+    fn matches_open(&self, prop: &str, sig: &str) -> bool {
+        self.property == prop && self.status == "open" && self.signatures.iter().any(|s| s == sig)
+    }
 }
 
 pub fn load_known(verif: &Path) -> Vec<KnownFinding> {
@@ -601,13 +607,15 @@ pub fn run_property(prop: &Property, cfg: &RunCfg) -> i32 {
         replayed += 1;
         match sub.replay(&rf.case, &Cx::default()) {
             Ok(Verdict::Fail(f)) => {
-                if let Some(k) = known
-                    .iter()
-                    .find(|k| k.property == prop.id && k.status == "open" && k.signature == f.sig)
-                {
-                    if !cx.excluded.contains(&k.signature) {
-                        cx.excluded.push(k.signature.clone());
-                        known_lines.push(format!("KNOWN-FINDING: property={} {} [{}]", prop.id, k.what, k.id));
+                if let Some(k) = known.iter().find(|k| k.matches_open(prop.id, &f.sig)) {
+                    let line = format!("KNOWN-FINDING: property={} {} [{}]", prop.id, k.what, k.id);
+                    if !known_lines.contains(&line) {
+                        known_lines.push(line);
+                    }
+                    for s in &k.signatures {
+                        if !cx.excluded.contains(s) {
+                            cx.excluded.push(s.clone());
+                        }
                     }
                 } else {
                     println!("regression input fails: {} :: {}", f.sig, f.msg);
@@ -629,10 +637,7 @@ pub fn run_property(prop: &Property, cfg: &RunCfg) -> i32 {
         let rep = sub.run(prop.id, cfg, &cx);
         for (f, case) in &rep.failures {
             let path = write_replay(&cfg.verif_dir, prop.id, &rep.name, f, case);
-            if let Some(k) = known
-                .iter()
-                .find(|k| k.property == prop.id && k.status == "open" && k.signature == f.sig)
-            {
+            if let Some(k) = known.iter().find(|k| k.matches_open(prop.id, &f.sig)) {
                 let line = format!("KNOWN-FINDING: property={} {} [{}]", prop.id, k.what, k.id);
                 if !known_lines.contains(&line) {
                     println!("{line}");
